@@ -23,18 +23,47 @@ SAFE_BY_TYPE = {
 }
 SAFE_ENUM_VALUE = {  # `<expr>.value` / `.name` of these enums: members are identifier-like literals
     "generation.mode.value": ("generation/modes.py", "GenerationMode"),
-    "info.mode.value": ("generation/modes.py", "GenerationMode"),
-    "kind.value": ("generation/meta.py", "ComponentKind"),
+    "<component_info>.mode.value": ("generation/modes.py", "GenerationMode"),
+    "<component_kind>.value": ("generation/meta.py", "ComponentKind"),
     "phase.name.value": ("generation/meta.py", "TestPhase"),
-    "status.name": ("engine/__init__.py", "Status"),
-    "status.name.upper()": ("engine/__init__.py", "Status"),
+    ".status.name": ("engine/__init__.py", "Status"),
+    ".status.name.upper()": ("engine/__init__.py", "Status"),
 }
 SAFE_NAMES = {
     "SCHEMATHESIS_VERSION": "package version constant",
-    "recorded_at": "datetime.isoformat() text",
-    "case_id": "recorder case id (generate_random_case_id alphabet) - named assumption: cases built by the engine",
-    "current_id": "int counter",
+    "<case_id>": "recorder case id (generate_random_case_id alphabet) - named assumption: cases built by the engine",
 }
+
+
+def _loop_roles(fn: FuncInfo) -> dict[str, str]:
+    """Loop variables with a known role: key of recorder.interactions (case id), (kind, info) of meta.components."""
+    roles: dict[str, str] = {}
+    scopes = [fn] + ([fn.parent] if fn.parent is not None else [])
+    for f in scopes:
+        for n in ast.walk(f.node):
+            if isinstance(n, ast.For) and isinstance(n.iter, ast.Call) and isinstance(n.iter.func, ast.Attribute) and n.iter.func.attr == "items" and isinstance(n.target, ast.Tuple) and len(n.target.elts) == 2:
+                src = unparse(n.iter.func.value, 200)
+                a, b = n.target.elts
+                if src.endswith(".interactions") and isinstance(a, ast.Name):
+                    roles[a.id] = "<case_id>"
+                if src.endswith(".components") and isinstance(a, ast.Name) and isinstance(b, ast.Name):
+                    roles[a.id] = "<component_kind>"
+                    roles[b.id] = "<component_info>"
+    return roles
+
+
+def _role_text(fn: FuncInfo, expr: ast.expr) -> str:
+    """unparse with role-carrying loop variables replaced by their role tag."""
+    roles = _loop_roles(fn)
+    if not roles:
+        return unparse(expr, 200)
+    import copy
+
+    class T(ast.NodeTransformer):
+        def visit_Name(self, node: ast.Name) -> ast.AST:
+            return ast.copy_location(ast.Name(id=roles[node.id], ctx=node.ctx), node) if node.id in roles else node
+
+    return unparse(T().visit(copy.deepcopy(expr)), 200)
 SAFE_ATTRS = {
     "encoded_body": "base64 text (b64encode(...).decode())",
     "http_version": "'1.0' / '1.1' literal chosen in Response.from_requests (default '1.1')",
@@ -69,21 +98,22 @@ def _field_annotation(P: Project, rel: str, cls: str, field: str) -> str | None:
 
 def _classify_part(P: Project, fn: FuncInfo, expr: ast.expr, closures: dict[str, FuncInfo]) -> tuple[str, str]:
     """('encoded'|'safe'|'raw'|'unknown', reason) for one interpolated expression of a hand-built YAML fragment."""
-    text = unparse(expr, 200)
+    text = _role_text(fn, expr)
     if isinstance(expr, ast.Call):
         la = last_attr(expr)
         if la in ENCODERS:
             return "encoded", la or ""
         if isinstance(expr.func, ast.Name) and expr.func.id in closures:
             return "closure", expr.func.id
-        if text in SAFE_ENUM_VALUE:
-            rel, cls = SAFE_ENUM_VALUE[text]
-            return ("safe", f"{cls} member name") if _enum_members_identifier_like(P, rel, cls) else ("raw", f"{cls} has non-identifier values")
     if isinstance(expr, ast.Name):
-        if expr.id in SAFE_NAMES:
-            return "safe", SAFE_NAMES[expr.id]
-        # a local assigned from an encoder / constant
+        if text in SAFE_NAMES:
+            return "safe", SAFE_NAMES[text]
+        # a local assigned from an encoder / constant / isoformat() / an int counter
         vals = local_value(fn, expr.id)
+        if vals and all(isinstance(v, ast.Call) and last_attr(v) == "isoformat" for v in vals):
+            return "safe", "datetime.isoformat() text"
+        if vals and all(isinstance(v, ast.Constant) and isinstance(v.value, int) for v in vals):
+            return "safe", "int counter"
         if vals and all(isinstance(v, ast.Call) and last_attr(v) in ENCODERS for v in vals):
             return "encoded", "local bound from an encoder"
         if vals and all(isinstance(v, ast.Constant) for v in vals):
@@ -100,9 +130,23 @@ def _classify_part(P: Project, fn: FuncInfo, expr: ast.expr, closures: dict[str,
             if ann is not None and ann.startswith(accepted):
                 return "safe", why
             return "unknown", f"{cls}.{field} is annotated {ann}"
-    for key, (rel, cls) in SAFE_ENUM_VALUE.items():
-        if text.endswith(key):
-            return ("safe", f"{cls} member value") if _enum_members_identifier_like(P, rel, cls) else ("raw", f"{cls} has non-identifier values")
+    # `<local>.name` where every value the local can hold is a member of the enum (or the `.status` of a check)
+    alts = {_a for _a in canon(fn, expr) if _a != unparse(expr, 2000)} or {text}
+    import re as _re
+
+    def enum_of(t_: str) -> tuple[str, str] | None:
+        m_ = _re.fullmatch(r"Status\.[A-Z_]+\.name(\.upper\(\))?", t_)
+        if m_:
+            return ("engine/__init__.py", "Status")
+        for key, rc in SAFE_ENUM_VALUE.items():
+            if t_.endswith(key):
+                return rc
+        return None
+
+    kinds = {enum_of(_role_text(fn, ast.parse(a_, mode="eval").body) if a_ != text else a_) for a_ in alts}
+    if None not in kinds and len(kinds) == 1:
+        rel, cls = next(iter(kinds))  # type: ignore[misc]
+        return ("safe", f"{cls} member value") if _enum_members_identifier_like(P, rel, cls) else ("raw", f"{cls} has non-identifier values")
     for key, why in SAFE_ATTRS.items():
         if text.endswith(key):
             return "safe", why
@@ -203,14 +247,15 @@ def r3_structured_writers(chk: Check) -> None:
     har = P.func(f"{CAS}:har_writer")
     writes = [c for c in body_calls(har) if last_attr(c) == "write"]
     chk.decide(not writes, "C16.R3", har, "no raw stream writes in har_writer", "HAR JSON is assembled by hand", har.loc(writes[0]) if writes else har.loc())
-    adds = [c for c in body_calls(har) if dotted(c.func) == "har.add_entry"]
+    harv = {i.optional_vars.id for n in walk_body(har.node) if isinstance(n, ast.With) for i in n.items if isinstance(i.context_expr, ast.Call) and dotted(i.context_expr.func) == "harfile.open" and isinstance(i.optional_vars, ast.Name)}
+    adds = [c for c in body_calls(har) if last_attr(c) == "add_entry" and isinstance(c.func, ast.Attribute) and dotted(c.func.value) in harv]
     chk.decide(bool(adds), "C16.R3", har, "entries go through har.add_entry", "no add_entry call", har.loc())
     ju = P.func("cli/commands/run/handlers/junitxml.py:JunitXMLHandler.handle_event")
     chk.decide(any(last_attr(c) == "to_xml_report_file" for c in body_calls(ju)), "C16.R3", ju, "JUnit XML via junit_xml.to_xml_report_file", "XML is not produced by the junit_xml library", ju.loc())
     # R4 one entry per interaction: a single loop over recorder.interactions, the entry write is not skippable
     for ref, sink_pred, what in (
         (f"{CAS}:vcr_writer", lambda c: last_attr(c) == "write" and c.args and isinstance(c.args[0], ast.JoinedStr) and "- id:" in unparse(c.args[0], 200), "entry header write"),
-        (f"{CAS}:har_writer", lambda c: dotted(c.func) == "har.add_entry", "har.add_entry"),
+        (f"{CAS}:har_writer", lambda c: last_attr(c) == "add_entry" and isinstance(c.func, ast.Attribute) and dotted(c.func.value) in harv, "har.add_entry"),
     ):
         fn = P.func(ref)
         g = cfg_of(fn)
@@ -242,8 +287,7 @@ def r3_structured_writers(chk: Check) -> None:
         true_arm = "\n".join(unparse(s, 100000) for s in pb[0].body)
         chk.expect("request.encoded_body" in true_arm and "response.encoded_body" in true_arm and "base64_string" in true_arm, "C16.R3", vcr, "preserve_bytes => base64 of request and response body", "an arm of the byte-preserving writer does not use encoded_body", vcr.loc(pb[0]))
         del t
-    ht = unparse(har.node, 100000)
-    chk.expect("interaction.request.encoded_body if preserve_bytes" in ht and "interaction.response.encoded_body if preserve_bytes" in ht, "C16.R3", har, "HAR: encoded_body when preserve_bytes", "HAR writer ignores preserve-bytes on one side", har.loc())
+    chk.expect(phas("$i.request.encoded_body if preserve_bytes else $_", har.node) and phas("$i.response.encoded_body if preserve_bytes else $_", har.node), "C16.R3", har, "HAR: encoded_body when preserve_bytes", "HAR writer ignores preserve-bytes on one side", har.loc())
     # encoded_body really is base64 of the raw bytes
     for ref in ("core/transport.py:Response.encoded_body", "engine/recorder.py:Request.encoded_body"):
         f = P.maybe_func(ref)
@@ -317,17 +361,24 @@ def r7_handlers(chk: Check) -> None:
     t = unparse(cw.node, 2000)
     chk.expect("Finalize()" in t and "_stop_worker" in t, "C16.R7", cw, "shutdown sends Finalize and joins the writer", "the writer thread is not told to finish / not joined", cw.loc())
     ih = P.func("cli/commands/run/executor.py:initialize_handlers")
-    t = unparse(ih.node, 100000)
-    for needle, what in (("JunitXMLHandler(path)", "JUnit"), ("CassetteWriter(", "VCR/HAR")):
-        chk.decide(needle in t, "C16.R7", ih, f"{what} handler created when its format is requested", f"{what} report is never produced", ih.loc())
+    ju_c = [c for c in body_calls(ih) if last_attr(c) == "JunitXMLHandler" and c.args]
+    chk.decide(bool(ju_c) and any("get_path(ReportFormat.JUNIT)" in x for x in canon(ih, ju_c[0].args[0])) if ju_c else False, "C16.R7", ih, "JUnit handler created when its format is requested", "JUnit report is never produced", ih.loc())
     kw = [c for c in body_calls(ih) if last_attr(c) == "CassetteWriter"]
+    chk.decide(bool(kw), "C16.R7", ih, "VCR/HAR handler created when its format is requested", "VCR/HAR report is never produced", ih.loc())
     if kw:
-        for k, v in (("format", "format"), ("path", "path"), ("preserve_bytes", "config.report.preserve_bytes")):
-            val = kwarg(kw[0], k)
-            chk.decide(val is not None and unparse(val) == v, "C16.R7", ih, f"CassetteWriter({k}={v})", f"`{k}` receives {unparse(val)}", ih.loc(kw[0]))
+        lp_ = next((a for a in ancestors(kw[0]) if isinstance(a, ast.For) and isinstance(a.target, ast.Name)), None)
+        fmt = lp_.target.id if lp_ is not None else None  # type: ignore[union-attr]
+        val = kwarg(kw[0], "format")
+        chk.decide(fmt is not None and is_var(val, fmt), "C16.R7", ih, "CassetteWriter(format=format)", f"`format` receives {unparse(val)}", ih.loc(kw[0]))
+        val = kwarg(kw[0], "path")
+        chk.decide(val is not None and fmt is not None and any(x.endswith(f"get_path({fmt})") for x in canon(ih, val)), "C16.R7", ih, "CassetteWriter(path=path)", f"`path` receives {unparse(val)}", ih.loc(kw[0]))
+        val = kwarg(kw[0], "preserve_bytes")
+        chk.decide(val is not None and unparse(val) == "config.report.preserve_bytes", "C16.R7", ih, "CassetteWriter(preserve_bytes=config.report.preserve_bytes)", f"`preserve_bytes` receives {unparse(val)}", ih.loc(kw[0]))
     post = P.func(f"{CAS}:CassetteWriter.__post_init__")
-    t = unparse(post.node, 100000)
-    chk.expect("writer = har_writer" in t and "writer = vcr_writer" in t and "ReportFormat.HAR" in t, "C16.R7", post, "HAR format -> har_writer, otherwise vcr_writer", "format dispatch not recognised", post.loc())
+    th_ = [c for c in body_calls(post) if last_attr(c) == "Thread"]
+    wv = kwarg(th_[0], "target") if th_ else None
+    wvals = {unparse(v) for _s, v in assignments_to(post.node, wv.id) if v is not None} if isinstance(wv, ast.Name) else set()
+    chk.expect(wvals == {"har_writer", "vcr_writer"} and "ReportFormat.HAR" in unparse(post.node, 100000), "C16.R7", post, "HAR format -> har_writer, otherwise vcr_writer", "format dispatch not recognised", post.loc())
     for n in walk_body(post.node):
         if isinstance(n, ast.If) and "ReportFormat.HAR" in unparse(n.test):
             body_w = [unparse(s.value) for s in n.body if isinstance(s, ast.Assign)]
